@@ -226,6 +226,7 @@ func init() {
 		NotDecided: "the delay bound itself (time); FixedBufferCleaner's quiescent size.",
 		Build: func(c *Ctx) []*an.Oblig {
 			cooldownProtocol(c)
+			cleanerAlwaysConsulted(c)
 			out := c.sel(func(o *an.Oblig) bool {
 				if isUndecided(o) || o.Rule == "ANCHOR" {
 					return true
@@ -240,6 +241,9 @@ func init() {
 					return true
 				}
 				if ruleIn(o, "P", "WL", "SL") && funcHas(o, "WaitCond") {
+					return true
+				}
+				if ruleIn(o, "AT") && funcHas(o, "(*Buffer).cleanup") {
 					return true
 				}
 				return false
@@ -259,4 +263,22 @@ func init() {
 			floorRule("cleaner start / predicate", "PATH", 7),
 		},
 	})
+}
+
+// cleanerAlwaysConsulted: every run of cleanupLogic asks the configured cleaner (also with no consumers:
+// FixedBufferCleaner bounds the buffer regardless of consumers).
+func cleanerAlwaysConsulted(c *Ctx) {
+	q := c.F("(*Buffer).cleanupLogic")
+	if !q.ok() {
+		return
+	}
+	P := c.P
+	calls := P.CallsTo(q.fn, "field:CleanerConfig.Cleaner")
+	if !q.need(calls, "PATH", "call of the configured cleaner") {
+		return
+	}
+	skipped := P.PathExists(q.fn, nil, an.IsReturn, an.In(calls), nil)
+	q.add("PATH", "every cleanup pass consults the configured cleaner", !skipped,
+		pickS(!skipped, "no return of cleanupLogic is reachable without calling the cleaner", "cleanupLogic can return without calling the cleaner (e.g. when there are no consumers): a size-bounding cleaner such as FixedBufferCleaner would never run and the buffer grows without bound"), calls[0])
+	// and consumerOffsets always returns a (possibly empty) list once the buffer is initialised
 }
